@@ -1,8 +1,8 @@
 //! Histories over N real signers + scripted honest co-signers + the real aggregator, the boundary
 //! log, and the C20 history checker (E1-E4).
 use crate::agg::Agg;
-use crate::front::{FaultKind, Front, HttpEvent, PlannedFault, ReqKind};
-use crate::model::{sigma_hex, Model, Registration, SigVerdict, SIGNING_OFFSET};
+use crate::front::{announcement_of, FaultKind, Front, HttpEvent, PlannedFault, ReqKind};
+use crate::model::{sigma_hex, Announced, Model, Registration, SigVerdict, SIGNING_OFFSET};
 use crate::signer::{SignerNode, SignerSettings};
 use anyhow::{anyhow, Context};
 use mithril_common::crypto_helper::{KesPeriod, KesSigner, KesSignerStandard, ProtocolInitializer};
@@ -39,13 +39,17 @@ pub struct FaultSpec {
 pub enum Ev {
     AggTick,
     SignerTick { i: usize, faults: Vec<FaultSpec> },
-    EpochUp { restake: bool },
+    /// `lag`: (real signer, number of its ticks) whose own Cardano node stays at the old epoch (old
+    /// stake distribution, old chain point) for that many of its ticks before it catches up
+    EpochUp { restake: bool, lag: Vec<(usize, u32)> },
     NewImmutable,
     Blocks(u64),
     SignerStop(usize),
     SignerStart(usize),
     SignerRestart(usize),
-    AggRestart,
+    /// `parameters`: the operator changed the protocol parameters (k, m, phi_f) of the aggregator's
+    /// configuration before starting it again
+    AggRestart { parameters: Option<(u64, u64, f64)> },
     AggDown(bool),
     ScriptedRegister(usize),
     ScriptedSign(usize),
@@ -57,14 +61,17 @@ impl Ev {
             Ev::AggTick => "aggregator-tick",
             Ev::SignerTick { faults, .. } if faults.is_empty() => "signer-tick",
             Ev::SignerTick { .. } => "signer-tick-with-faults",
-            Ev::EpochUp { restake: false } => "epoch+1",
-            Ev::EpochUp { restake: true } => "epoch+1-with-new-stakes",
+            Ev::EpochUp { restake: false, lag } if lag.is_empty() => "epoch+1",
+            Ev::EpochUp { restake: true, lag } if lag.is_empty() => "epoch+1-with-new-stakes",
+            Ev::EpochUp { restake: false, .. } => "epoch+1-with-a-lagging-signer-node",
+            Ev::EpochUp { restake: true, .. } => "epoch+1-with-new-stakes-and-a-lagging-signer-node",
             Ev::NewImmutable => "new-immutable",
             Ev::Blocks(_) => "new-blocks",
             Ev::SignerStop(_) => "signer-stop",
             Ev::SignerStart(_) => "signer-start",
             Ev::SignerRestart(_) => "signer-restart",
-            Ev::AggRestart => "aggregator-restart",
+            Ev::AggRestart { parameters: None } => "aggregator-restart",
+            Ev::AggRestart { parameters: Some(_) } => "aggregator-restart-with-changed-protocol-parameters",
             Ev::AggDown(true) => "aggregator-down",
             Ev::AggDown(false) => "aggregator-up-again",
             Ev::ScriptedRegister(_) => "scripted-register",
@@ -140,6 +147,9 @@ pub struct Run {
     pub hid: String,
     pub key_rng: ChaCha20Rng,
     pub base_stakes: BTreeMap<String, u64>,
+    /// (chain epoch, step, new parameters) of the restarts of the aggregator with changed parameters
+    pub parameter_changes: Vec<(u64, usize, ProtocolParameters)>,
+    pub lag_windows: u32,
 }
 
 fn state_label(s: &Option<SignerState>) -> String {
@@ -229,6 +239,11 @@ impl Run {
         for c in [start_epoch - 2, start_epoch - 1, start_epoch] {
             model.stakes_at.insert(c, base_stakes.clone());
         }
+        // the keys of the genesis epochs (the fixture's) were made with the fixture's parameters; every
+        // later round's parameters are learnt from the aggregator's announcements
+        for c in [start_epoch - 2, start_epoch - 1] {
+            model.announce(c, pp.clone());
+        }
         let fixtures = fixture.signers_fixture();
         let mut signers = vec![];
         let mut per = vec![];
@@ -263,6 +278,7 @@ impl Run {
             node.block_scanner.add_forwards(vec![(91..=100u64)
                 .map(|bn| mithril_cardano_node_chain::entities::ScannedBlock::new(format!("block_hash-{bn}"), BlockNumber(bn), SlotNumber(bn - 90), vec![format!("tx_hash-{bn}-1")]))
                 .collect()]);
+            node.sync_node(&agg.sim.world).await?;
             node.start(&agg.sim.world).await?;
             signers.push(node);
             per.push(PerSigner::default());
@@ -327,6 +343,8 @@ impl Run {
             hid: hid.to_string(),
             key_rng: ChaCha20Rng::from_seed(seed),
             base_stakes,
+            parameter_changes: vec![],
+            lag_windows: 0,
         })
     }
 
@@ -341,15 +359,74 @@ impl Run {
             "start_epoch": self.start_epoch,
             "real_signers": self.signers.iter().map(|s| json!({"idx": s.idx, "party": s.party_id, "publish_attempts": s.settings.publish_attempts, "retention": s.settings.retention})).collect::<Vec<_>>(),
             "scripted_signers": self.scripted.iter().map(|s| s.party.clone()).collect::<Vec<_>>(),
-            "protocol_parameters": format!("{:?}", self.model.pp),
+            "protocol_parameters_at_start": format!("{:?}", self.model.pp0),
+            "registration_parameters_announced_by_the_aggregator": self.model.announced.iter().map(|(e, p)| json!({"round_of_epoch": e, "k": p.k, "m": p.m, "phi_f": p.phi_f})).collect::<Vec<_>>(),
+            "aggregator_restarts_with_changed_parameters": self.parameter_changes.iter().map(|(e, st, p)| json!({"chain_epoch": e, "step": st, "k": p.k, "m": p.m, "phi_f": p.phi_f})).collect::<Vec<_>>(),
+            "signer_nodes": self.signers.iter().map(|s| json!({"idx": s.idx, "node_epoch": s.node_epoch, "lag_ticks_left": s.lag_ticks_left, "lagged_in_epoch": s.lagged_in_epoch})).collect::<Vec<_>>(),
             "schedule": self.schedule,
             "log_tail": self.log.iter().rev().take(40).rev().collect::<Vec<_>>(),
             "detail": detail,
         })
     }
 
-    pub async fn time_point(&mut self) -> StdResult<TimePoint> {
-        self.agg.sim.observed_time_point().await
+    /// note what the REAL aggregator announced in a genuine /epoch-settings reply: the protocol
+    /// parameters of the registration round of the epoch of the reply
+    fn note_announcement(&mut self, round_epoch: u64, parameters: &Value, mon: &mut Monitor) -> Option<ProtocolParameters> {
+        let pp: ProtocolParameters = match serde_json::from_value(parameters.clone()) {
+            Ok(p) => p,
+            Err(_) => {
+                mon.count("diag:epoch_settings_reply_without_registration_parameters");
+                return None;
+            }
+        };
+        match self.model.announce(round_epoch, pp.clone()) {
+            Announced::New => {
+                mon.count("registration_rounds_whose_parameters_the_aggregator_announced");
+                let prev = round_epoch.checked_sub(1).and_then(|e| self.model.announced.get(&e));
+                if prev.is_some_and(|p| *p != pp) {
+                    mon.count("registration_rounds_announced_with_parameters_other_than_the_previous_round");
+                }
+            }
+            Announced::Same => {}
+            Announced::Conflict(old) => {
+                // not the signer's business, but the model cannot be trusted for this round any more
+                mon.count("diag:aggregator_announced_two_parameter_sets_for_one_registration_round");
+                if std::env::var("VERIF_DEBUG").is_ok() {
+                    eprintln!("round of epoch {round_epoch}: announced {old:?} earlier, now {pp:?}");
+                }
+            }
+        }
+        Some(pp)
+    }
+
+    fn note_front_announcements(&mut self, mon: &mut Monitor) {
+        for (e, v) in self.front.state.drain_announcements() {
+            self.note_announcement(e, &v, mon);
+        }
+    }
+
+    /// ask the REAL aggregator (through its router, not through a signer) for its epoch settings:
+    /// (epoch it announces, registration parameters of that round)
+    async fn probe_announcement(&mut self, mon: &mut Monitor) -> Option<(u64, ProtocolParameters)> {
+        if self.agg_down {
+            return None;
+        }
+        let (status, _, body) = self.front.state.forward(&Method::GET, "/aggregator/epoch-settings", &HeaderMap::new(), &[]).await?;
+        if status != 200 {
+            return None;
+        }
+        let (e, v) = announcement_of(&body)?;
+        let pp = self.note_announcement(e, &v, mon)?;
+        // the same parameters must be served as protocol configuration of the recording epoch of the round
+        // (diagnostic only: the configuration route is what the real signers register with)
+        if let Some((200, _, b)) = self.front.state.forward(&Method::GET, &format!("/aggregator/protocol-configuration/{}", e + 1), &HeaderMap::new(), &[]).await {
+            if let Ok(v) = serde_json::from_slice::<Value>(&b) {
+                if serde_json::from_value::<ProtocolParameters>(v["protocol_parameters"].clone()).ok().as_ref() != Some(&pp) {
+                    mon.count("diag:epoch_settings_and_protocol_configuration_announce_different_registration_parameters");
+                }
+            }
+        }
+        Some((e, pp))
     }
 
     /// a signed entity type of the aggregator's database row
@@ -391,12 +468,33 @@ impl Run {
                         mon.count("aggregator_tick_errors");
                     }
                     self.after_aggregator_step(mon).await?;
+                    if let Some((e, pp)) = self.probe_announcement(mon).await {
+                        entry["aggregator_announces"] = json!({"epoch": e, "registration_parameters": [pp.k, pp.m, pp.phi_f]});
+                    }
                 }
             }
             Ev::SignerTick { i, faults } => {
                 self.signer_tick(*i, faults, &mut entry, mon).await?;
             }
-            Ev::EpochUp { restake } => {
+            Ev::EpochUp { restake, lag } => {
+                // every signer's node has seen the end of the old epoch (an earlier lag is over) ...
+                for s in self.signers.iter_mut() {
+                    s.lag_ticks_left = 0;
+                    s.sync_node(&self.agg.sim.world).await?;
+                }
+                // ... and the nodes named in `lag` stay there for a while
+                for (i, ticks) in lag {
+                    if *ticks > 0 && *i < self.signers.len() {
+                        self.signers[*i].lag_ticks_left = *ticks;
+                        self.signers[*i].lagged_in_epoch = Some(self.chain_epoch + 1);
+                        self.per[*i].disturbed = true;
+                        self.per[*i].streak = 0;
+                        self.any_disturbance = true;
+                        self.lag_windows += 1;
+                        mon.count("node_lag_windows");
+                        mon.count(&format!("node_lag_windows:signer_was_{}", if self.signers[*i].is_up() { "up" } else { "down" }));
+                    }
+                }
                 if *restake {
                     let mut new = vec![];
                     let mut map = BTreeMap::new();
@@ -446,14 +544,28 @@ impl Run {
             }
             Ev::SignerStart(i) | Ev::SignerRestart(i) => {
                 let world = &self.agg.sim.world;
+                if self.signers[*i].lag_ticks_left == 0 {
+                    self.signers[*i].sync_node(world).await?;
+                } else {
+                    mon.count("signer_started_while_its_node_lags");
+                    entry["node_epoch"] = json!(self.signers[*i].node_epoch);
+                }
                 self.signers[*i].start(world).await?;
                 self.per[*i].disturbed = true;
                 self.per[*i].streak = 0;
                 self.per[*i].restarted_in_epoch = Some(self.chain_epoch);
                 self.any_disturbance = true;
             }
-            Ev::AggRestart => {
+            Ev::AggRestart { parameters } => {
                 tokio::time::sleep(std::time::Duration::from_millis(20)).await;
+                if let Some((k, m, phi_f)) = parameters {
+                    // the operator edits the configuration; the restarted aggregator announces the new
+                    // parameters for a later registration round, under its own epoch offsets
+                    let pp = ProtocolParameters { k: *k, m: *m, phi_f: *phi_f };
+                    entry["parameters"] = json!(format!("{:?} -> {:?}", self.agg.sim.cfg.protocol_parameters, pp));
+                    self.agg.sim.cfg.protocol_parameters = pp.clone();
+                    self.parameter_changes.push((self.chain_epoch, self.step, pp));
+                }
                 self.agg.restart().await?;
                 self.any_disturbance = true;
                 for p in self.per.iter_mut() {
@@ -528,7 +640,7 @@ impl Run {
                 "stale-settings" => {
                     // a genuine reply of an earlier epoch
                     let cache = self.front.state.settings_cache.lock().unwrap();
-                    match cache.range(..self.chain_epoch).next_back() {
+                    match cache.range(..self.signers[i].node_epoch).next_back() {
                         Some((_, b)) => FaultKind::Stale(b.clone()),
                         None => continue,
                     }
@@ -541,7 +653,6 @@ impl Run {
             };
             out.push(PlannedFault { on: f.on, kind, remaining: f.n });
         }
-        let _ = i;
         out
     }
 
@@ -550,7 +661,17 @@ impl Run {
             entry["skipped"] = json!("signer is down");
             return Ok(());
         }
-        let tp = self.time_point().await?;
+        // the signer's node follows the world, unless it is inside a lag window
+        let lag_tick = self.signers[i].lag_ticks_left > 0;
+        if !lag_tick {
+            let was_behind = self.signers[i].node_epoch != self.chain_epoch;
+            self.signers[i].sync_node(&self.agg.sim.world).await?;
+            if was_behind && self.signers[i].lagged_in_epoch == Some(self.chain_epoch) {
+                mon.count("node_lag_windows_ended_by_catching_up");
+            }
+        }
+        let node_epoch = self.signers[i].node_epoch;
+        let tp = self.signers[i].time_point(&self.agg.sim.world).await?;
         let agg_epoch = self.agg.epoch_of_current_data().await;
         let state_before = self.signers[i].state().await;
         let planned = self.plan_faults(i, faults);
@@ -563,6 +684,24 @@ impl Run {
         tokio::task::yield_now().await;
         let events = self.front.state.drain();
         let state_after = self.signers[i].state().await;
+        self.note_front_announcements(mon);
+        if lag_tick {
+            self.signers[i].lag_ticks_left -= 1;
+            self.per[i].disturbed = true;
+            entry["node_lags"] = json!({"node_epoch": node_epoch, "world_epoch": self.chain_epoch});
+            mon.count("signer_ticks_while_its_node_lags");
+            mon.count(&format!("signer_ticks_while_its_node_lags:state_before:{}", state_kind(&state_before)));
+            mon.count(&format!(
+                "signer_ticks_while_its_node_lags:aggregator_{}",
+                match agg_epoch {
+                    _ if self.agg_down => "down",
+                    None => "not_initialised",
+                    Some(a) if a > node_epoch => "ahead_of_the_node",
+                    Some(a) if a == node_epoch => "at_the_epoch_of_the_node",
+                    Some(_) => "behind_the_node",
+                }
+            ));
+        }
         let mut critical = false;
         let err = match &res {
             Ok(()) => None,
@@ -608,9 +747,9 @@ impl Run {
             };
             mon.count(&format!("request:{}:{}", ev.kind.name(), outcome));
             match ev.kind {
-                ReqKind::RegisterSigner => self.on_registration(i, ev, mon),
+                ReqKind::RegisterSigner => self.on_registration(i, ev, node_epoch, mon),
                 ReqKind::RegisterSignature => {
-                    let key = self.on_signature(i, ev, &state_before, agg_epoch, &tp, mon);
+                    let key = self.on_signature(i, ev, &state_before, agg_epoch, &tp, node_epoch, lag_tick, mon);
                     sent_beacons.push(key);
                 }
                 _ => {}
@@ -619,7 +758,7 @@ impl Run {
         // ---------------- a publication that failed must be attempted again (same beacon) while it is current
         if let Some(u) = self.per[i].unacked.take() {
             let same_world = u.time_point == tp;
-            let ready = matches!(&state_before, Some(SignerState::ReadyToSign { epoch }) if **epoch == self.chain_epoch);
+            let ready = matches!(&state_before, Some(SignerState::ReadyToSign { epoch }) if **epoch == node_epoch);
             if !same_world {
                 mon.count("unacked_publication:world_moved_on");
             } else if !ready {
@@ -652,7 +791,7 @@ impl Run {
             }
         }
         // ---------------- bounded progress (E4)
-        self.progress(i, &state_after, agg_epoch, injected || had_plan, mon);
+        self.progress(i, &state_after, agg_epoch, injected || had_plan || lag_tick, mon);
         if critical {
             // the real signer process exits on a critical error
             mon.count("signer_critical_error_process_exit");
@@ -662,24 +801,28 @@ impl Run {
         Ok(())
     }
 
-    fn on_registration(&mut self, i: usize, ev: &HttpEvent, mon: &mut Monitor) {
+    /// `node_epoch`: the chain epoch the sender's own node reports ("sent during chain epoch c")
+    fn on_registration(&mut self, i: usize, ev: &HttpEvent, node_epoch: u64, mon: &mut Monitor) {
         let Some((msg, signer)) = Model::signer_from_message(&ev.body) else {
             mon.count("registration:undecodable_by_the_harness");
             return;
         };
         mon.eval();
-        *self.per[i].registration_attempts.entry(self.chain_epoch).or_insert(0) += 1;
+        *self.per[i].registration_attempts.entry(node_epoch).or_insert(0) += 1;
+        if node_epoch != self.chain_epoch {
+            mon.count("registration:sent_while_the_signers_node_lags");
+        }
         if msg.party_id != self.signers[i].party_id {
             mon.violation("C20 registration sent under another party id", &format!("signer {i} registered as {}", msg.party_id), self.replay(json!({"signer": i})));
         }
         if ev.delivered && ev.real_status == Some(201) {
             let vk_hex = signer.verification_key_for_concatenation.to_json_hex().unwrap_or_default();
-            if let Some(prev) = self.model.regs.iter().rev().find(|r| r.party == msg.party_id && r.sent_in_epoch == self.chain_epoch) {
+            if let Some(prev) = self.model.regs.iter().rev().find(|r| r.party == msg.party_id && r.sent_in_epoch == node_epoch) {
                 mon.count(if prev.vk_hex == vk_hex { "registration:same_key_registered_again_in_the_epoch" } else { "registration:new_key_replaces_the_one_registered_earlier_in_the_epoch" });
             }
             self.model.add(Registration {
                 party: msg.party_id.clone(),
-                sent_in_epoch: self.chain_epoch,
+                sent_in_epoch: node_epoch,
                 message_epoch: *msg.epoch,
                 signer,
                 vk_hex,
@@ -687,14 +830,24 @@ impl Run {
                 step: self.step,
                 origin: "real-signer",
             });
+            if *msg.epoch != node_epoch + 1 {
+                // never on the pinned tree: a signer whose node shows epoch c registers for the round of c only
+                mon.count("diag:registration_acknowledged_for_a_round_other_than_the_one_of_the_senders_node_epoch");
+            }
+            if self.model.announced.get(&node_epoch).is_some_and(|p| *p != self.model.pp0) {
+                mon.count("registration:acknowledged_in_a_round_with_changed_protocol_parameters");
+            }
             mon.count(if ev.returned_status == 201 { "registration:acknowledged" } else { "registration:delivered_reply_lost" });
         } else if ev.delivered {
             mon.count(&format!("registration:refused_by_aggregator:{}", ev.real_status.unwrap_or(0)));
         }
     }
 
-    /// E1, E2, E3 on one signature publication; returns the beacon key
-    fn on_signature(&mut self, i: usize, ev: &HttpEvent, state_before: &Option<SignerState>, agg_epoch: Option<u64>, tp: &TimePoint, mon: &mut Monitor) -> String {
+    /// E1, E2, E3 on one signature publication; returns the beacon key.
+    /// `node_epoch`: the chain epoch the signer's own node reports -- the epoch the signer signs for;
+    /// it is the world's epoch unless the node lags (`lag_tick`)
+    #[allow(clippy::too_many_arguments)]
+    fn on_signature(&mut self, i: usize, ev: &HttpEvent, state_before: &Option<SignerState>, agg_epoch: Option<u64>, tp: &TimePoint, node_epoch: u64, lag_tick: bool, mon: &mut Monitor) -> String {
         mon.eval();
         let key = beacon_key(&ev.body);
         let party = ev.body["party_id"].as_str().unwrap_or("").to_string();
@@ -703,9 +856,31 @@ impl Run {
         let signed_message = ev.body["signed_message"].as_str().unwrap_or("").to_string();
         let sigma = sigma_hex(&sig_hex);
         let set: Option<SignedEntityType> = serde_json::from_value(ev.body["entity_type"].clone()).ok();
-        let epoch = self.chain_epoch;
+        let epoch = node_epoch;
         let disturbed = self.per[i].disturbed;
         *self.per[i].sent_in_epoch.entry(epoch).or_insert(0) += 1;
+        // ---- which of the new fault classes does this judgement fall under
+        if lag_tick {
+            mon.count("signatures_judged:while_the_signers_node_lagged");
+        } else if let Some(l) = self.signers[i].lagged_in_epoch {
+            if l == self.chain_epoch {
+                mon.count("signatures_judged:after_a_node_lag_in_the_same_epoch");
+            } else if self.chain_epoch <= l + 3 {
+                mon.count("signatures_judged:within_3_epochs_after_a_node_lag");
+            }
+        }
+        {
+            let cur = self.model.parameters_in_force(epoch);
+            let next = self.model.parameters_in_force(epoch + 1);
+            if cur.is_some_and(|p| *p != self.model.pp0) {
+                mon.count("signatures_judged:under_changed_protocol_parameters");
+            }
+            if let (Some(c), Some(n)) = (cur, next) {
+                if c != n {
+                    mon.count("signatures_judged:in_an_epoch_whose_next_protocol_parameters_differ");
+                }
+            }
+        }
         if party != self.signers[i].party_id {
             mon.violation("C20 signature sent under another party id", &format!("signer {i} signed as {party}"), self.replay(json!({"signer": i})));
         }
@@ -714,7 +889,7 @@ impl Run {
         if !ready {
             mon.violation(
                 "C20 signature sent in a state other than ReadyToSign of the current epoch",
-                &format!("signer {i} was in {} (chain epoch {epoch}) when it sent a signature for {key}", state_label(state_before)),
+                &format!("signer {i} was in {} (epoch of its node {epoch}, of the world {}) when it sent a signature for {key}", state_label(state_before), self.chain_epoch),
                 self.replay(json!({"signer": i, "beacon": key})),
             );
         }
@@ -731,13 +906,18 @@ impl Run {
         // ---- E2: verifies under the registered key, in the signer set of the epoch
         let verdict = self.model.verify(epoch, &party, &sig_hex, &indexes, &signed_message);
         mon.count(&format!("signature_check:{}", match &verdict { SigVerdict::Valid => "valid_under_the_logged_registration".to_string(), v => format!("{v:?}").chars().take(30).collect() }));
-        if verdict != SigVerdict::Valid && reg.is_some() {
+        if verdict == SigVerdict::NoParameters {
+            // cannot happen as long as every acknowledged registration was preceded by an announcement
+            mon.count("diag:signature_not_judged:parameters_of_its_registration_round_never_announced");
+        } else if verdict != SigVerdict::Valid && reg.is_some() {
             mon.violation(
                 "C20 signature does not verify under the key registered for the epoch in force",
                 &format!(
-                    "signer {i} epoch {epoch} beacon {key}: mithril-stm verification under the key registered at step {} (sent during epoch {}) in the signer set computed from the logged registrations: {verdict:?}",
+                    "signer {i} epoch {epoch} beacon {key}: mithril-stm verification under the key registered at step {} (sent during epoch {}) in the signer set computed from the logged registrations, with the parameters the aggregator announced for that round ({:?}): {verdict:?}{}",
                     reg.as_ref().map(|r| r.3).unwrap_or(0),
-                    reg.as_ref().map(|r| r.2).unwrap_or(0)
+                    reg.as_ref().map(|r| r.2).unwrap_or(0),
+                    self.model.parameters_in_force(epoch),
+                    if lag_tick { format!("; the signer's node lags (world epoch {})", self.chain_epoch) } else { String::new() }
                 ),
                 self.replay(json!({"signer": i, "beacon": key, "signed_message": signed_message})),
             );
@@ -920,10 +1100,20 @@ impl Run {
             return Ok("already registered in this epoch".into());
         }
         let stake = self.model.stakes_at.get(&epoch).and_then(|m| m.get(&party)).copied().ok_or_else(|| anyhow!("no stake for scripted signer"))?;
+        // like a real signer: ask the aggregator for its epoch settings first; wait while it announces an
+        // earlier epoch; make the keys with the parameters it announces for the round
+        let Some((announced_epoch, pp)) = self.probe_announcement(mon).await else {
+            mon.count("scripted_registration:no_epoch_settings");
+            return Ok("the aggregator serves no epoch settings".into());
+        };
+        if announced_epoch != epoch {
+            mon.count("scripted_registration:aggregator_announces_another_epoch");
+            return Ok(format!("the aggregator announces epoch {announced_epoch}"));
+        }
         let mut seed = [0u8; 32];
         self.key_rng.fill_bytes(&mut seed);
         let mut rng = ChaCha20Rng::from_seed(seed);
-        let pi = ProtocolInitializer::setup(self.model.pp.clone().into(), Some(self.scripted[j].kes.clone()), Some(KesPeriod(0)), stake, &mut rng)?;
+        let pi = ProtocolInitializer::setup(pp.clone().into(), Some(self.scripted[j].kes.clone()), Some(KesPeriod(0)), stake, &mut rng)?;
         let f = &self.fixture.signers_fixture()[self.scripted[j].fixture_idx];
         let signer = Signer {
             party_id: party.clone(),
@@ -966,7 +1156,7 @@ impl Run {
         if !self.model.in_force(epoch).contains_key(&party) {
             return Ok(out);
         }
-        let pp = self.model.pp.clone();
+        let Some(pp) = self.model.parameters_in_force(epoch).cloned() else { return Ok(out) };
         let Some(keys) = self.model.keys(epoch) else { return Ok(out) };
         let builder = SignerBuilder::new(&keys.signers, &pp)?;
         let single = builder.restore_signer_from_initializer(party.clone(), pi)?;
@@ -1019,6 +1209,22 @@ impl Run {
                 }
                 let _ = (i, b);
             }
+        }
+        if !self.parameter_changes.is_empty() {
+            mon.count("histories_with_a_protocol_parameter_change");
+            mon.count_n("aggregator_restarts_with_changed_protocol_parameters", self.parameter_changes.len() as u64);
+        }
+        let mut distinct: Vec<&ProtocolParameters> = vec![];
+        for p in self.model.announced.values() {
+            if !distinct.iter().any(|d| *d == p) {
+                distinct.push(p);
+            }
+        }
+        if distinct.len() > 1 {
+            mon.count("histories_in_which_the_aggregator_announced_more_than_one_parameter_set");
+        }
+        if self.lag_windows > 0 {
+            mon.count("histories_with_a_node_lag_window");
         }
         mon.count_n("steps", self.step as u64);
         mon.count_n("epochs_covered", self.chain_epoch - self.start_epoch + 1);
